@@ -379,6 +379,7 @@ func runC09(c *Check) {
 	c.ruleHeadersRangeIsMaxCount("R14")
 	c.ruleHeightGettersAgree("R13")
 	c.ruleRevertStartsAtNewestFile("R15")
+	c.ruleLatestHeadersStart("R16")
 	c.ruleSaveNotSkipped("R12", []string{"storage.(*BlockRepository).save", "storage.(*BlockRepository).Save"}, "storage", "BlockRepository",
 		map[*types.Var]bool{a.lastHeaders: true, a.height: true}, map[string]bool{"storage.(*BlockRepository).Load": true, "storage.NewBlockRepository": true})
 
